@@ -2390,7 +2390,13 @@ func (e *Exec) next(it *IterVal, isString bool, ins *ssa.Next) Value {
 	// map
 	if it.idx >= len(it.keys) {
 		tt := ins.Type().(*types.Tuple)
-		return &TupleVal{[]Value{tFalse, e.zero(tt.At(1).Type()), e.zero(tt.At(2).Type())}}
+		zv := func(t types.Type) Value {
+			if b, ok := t.(*types.Basic); ok && b.Kind() == types.Invalid {
+				return nil // unused key/value of the range
+			}
+			return e.zero(t)
+		}
+		return &TupleVal{[]Value{tFalse, zv(tt.At(1).Type()), zv(tt.At(2).Type())}}
 	}
 	k, v := it.keys[it.idx], it.vals[it.idx]
 	it.idx++
